@@ -73,6 +73,7 @@ def build_cases(scripts, group=GROUP):
             lines_c.append("lspec const 0"); expect.append("0")
         unit = dict(script=sx(s["tree"]), lscr=g["lscr"], lnam=g["lnam"], names_sx=g["names_sx"], nhandlers=len(handlers),
                     classes=[L.c03_classes(h[3:]) for h in handlers], withlike=[L.c03_has_withlike(h[3:]) for h in handlers],
+                    proploop=[L.c03_prop_loop_classes(h[3:]) for h in handlers],
                     skel=s.get("skel"), hsx=[sx(h) for h in handlers])
         units.append((s.get("kind", "skel"), unit, lines_c, expect))
     cases = []
@@ -198,6 +199,28 @@ def scale_scripts(tier):
         body = [put(i) for i in range(n)]
         out.append(script_of([["on", "h0", []] + [["if", ["b", "lt", ["l", "c"], ["i", 1]], body, []], put(1)]], kind="scale-32k-then"))
         out.append(script_of([["on", "h0", []] + [["if", ["b", "lt", ["l", "c"], ["i", 1]], [put(2)], body], put(1)]], kind="scale-32k-else"))
+    return out
+
+
+def property_loop_scripts(tier):
+    """loop variables of every KIND in property scripts and factories: local, parameter, global and DECLARED PROPERTY (open findings
+    F151 / F152: the last is printed `accessor` / not recognised), for repeat with ... to / down to / in, alone, nested and after
+    another loop"""
+    out = []
+    put = lambda v: ["call", "put", v]
+    for kind in ("props", "factory"):
+        for v in (["r", "score"], ["l", "i"], ["p", "a"], ["g", "gIdx"]):
+            hs = []
+            hs.append([["with", v, ["i", 1], ["i", 5], "up", put(v)]])
+            hs.append([["with", v, ["i", 9], ["i", 1], "down", put(v)], put(["i", 2])])
+            hs.append([["in", v, ["li", ["i", 1], ["i", 2]], put(v)]])
+            hs.append([["while", ["b", "lt", v, ["i", 3]], ["with", v, ["i", 1], ["i", 5], "up", put(v)], ["in", v, ["l", "lst"], put(v)]]])
+            hs.append([["if", ["b", "lt", ["l", "c"], ["i", 1]], [["in", v, ["l", "lst"], put(["i", 1])]], [["with", v, ["i", 1], ["i", 2], "up", put(["i", 2])]]]])
+            tree = ["script", ["factory", "makeIt" if kind == "factory" else "-"], ["props", "score"], ["globals", "gIdx"]] + \
+                [[("method" if kind == "factory" else "on"), ("mL%d" % j if kind == "factory" else "h%d" % j), ["a"]] + b for j, b in enumerate(hs)]
+            if kind == "factory":
+                tree = tree[:4] + [["method", "mnew", [], ["set", ["r", "score"], ["i", 0]]]] + tree[4:]
+            out.append(dict(tree=tree, pre=[], kind="loop-variable-kinds"))
     return out
 
 
@@ -467,6 +490,7 @@ def cases(rng, tier):
         scripts += clean_exit_scripts(rng, 600)
         scripts += condition_form_scripts(tier)
         scripts += scale_scripts(tier)
+        scripts += property_loop_scripts(tier)
     else:
         scripts += skeleton_scripts(5, 1, "skel-k5-len1")
         scripts += skeleton_scripts(4, 1, "skel-k4-len01", empties=True)
@@ -477,6 +501,7 @@ def cases(rng, tier):
         scripts += clean_exit_scripts(rng, 20000 if tier == "thorough" else 8000)
         scripts += condition_form_scripts(tier)
         scripts += scale_scripts(tier)
+        scripts += property_loop_scripts(tier)
     # corpus replays are single-script cases (core prepends them)
     cs, rejected = build_cases(scripts)
     cases.rejected = rejected
@@ -528,7 +553,8 @@ def _classes(case, f):
     if f.line is None or f.line >= len(case["spec"]["index"]):
         return None
     si, hi = case["spec"]["index"][f.line]
-    return case["spec"]["scripts"][si]["classes"][hi]
+    u = case["spec"]["scripts"][si]
+    return list(u["classes"][hi]) + list((u.get("proploop") or [[]] * (hi + 1))[hi])
 
 
 def m_class(case, f, params):
@@ -553,6 +579,7 @@ def extra_stage(ctx, driver, stats):
     for c in getattr(cases, "last", []):
       for u in c.spec["scripts"]:
         for i, cl in enumerate(u["classes"]):
+            cl = list(cl) + list((u.get("proploop") or [[]] * (i + 1))[i])
             bad = (u["script"], i) in failing
             if cl and bad:
                 pred_fail += 1
@@ -569,7 +596,8 @@ def extra_stage(ctx, driver, stats):
     outs = L.ask_parallel(["lspec classes " + L.hexs(u["hsx"][i]) for u, i in hs])
     lean_disagree = 0
     for (u, i), o in zip(hs, outs):
-        want = ",".join(sorted(u["classes"][i]) + (["withlike"] if u.get("withlike", [False] * (i + 1))[i] else [])) or "-"
+        want = ",".join(sorted(u["classes"][i]) + (["withlike"] if u.get("withlike", [False] * (i + 1))[i] else [])
+                        + (["proploop"] if (u.get("proploop") or [[]] * (i + 1))[i] else [])) or "-"
         if o != want:
             lean_disagree += 1
             if lean_disagree <= 3:
